@@ -216,6 +216,16 @@ def axi_bench(name, rmw=False, base=0, wdepth=4, rdepth=4, dw=32, aw=8, idw=2, s
         bad("native_write_data_beat_without_axi_beat", mw.underflow)
         bad("marked_write_beat_not_at_its_position_or_wrong_strobes", mw.mine & ((port.wdata.data[0] != 1) | (port.wdata.we != mstrb)))
         bad("marked_write_beat_data_at_another_position", stub.resp_w & ~mw.mine & (port.wdata.data[0] == 1))
+    # read data reach the R channel in order (tagged native read beat) --------------------------------------------
+    if not rmw:
+        mr = Marker(stub.resp_r, r_hs, depth_bits=6)
+        top.submodules += mr
+        inputs["mark_r"] = mr.mark
+        rd_in = stub.inputs["n_rdata"]
+        asm("r_tag_bit_marks_the_marked_native_read_beat", ~stub.resp_r | (rd_in[0] == (mr.mark & ~mr.marked)))
+        bad("r_beat_without_native_read_data", mr.underflow)
+        bad("marked_read_data_not_at_its_position_in_the_r_stream", mr.mine & (axi.r.data[0] != 1))
+        bad("marked_read_data_appears_at_another_r_position", r_hs & ~mr.mine & (axi.r.data[0] == 1))
     # B responses -------------------------------------------------------------------------------------------
     top.comb += [qb.push.eq(aw_hs), qb.pop.eq(b_hs)]
     wtaken = Signal(6)
